@@ -32,7 +32,18 @@ func DeepCast(val Value, typ ast.Type, span errors.Span, allowCasts bool) (*Valu
 			}
 			return NewValueOption(innerCast), nil
 		}
-		return NewValueOption(&val), nil
+
+		// A `null` (e.g. from JSON) is the empty option
+		if val.Kind() == NullValueKind {
+			return NewNoneOption(), nil
+		}
+
+		// A plain value is only a valid `?T` if it is a valid `T`
+		innerCast, i := DeepCast(val, typ.(ast.OptionType).Inner, span, allowCasts)
+		if i != nil {
+			return nil, i
+		}
+		return NewValueOption(innerCast), nil
 	}
 
 	switch val.Kind() {
